@@ -72,6 +72,17 @@ def extract(o, path="", out=None):
             out.append(("%s.trajectory.state_list[%d]~occupancy" % (path, i), "derived", val))
     elif n in ("StaticObstacle", "DynamicObstacle"):
         extract(o.initial_state, path + ".initial_state", out)
+        # derived: the occupancy at the initial time step next to the shape placed independently at the CURRENT initial state
+        s0 = o.initial_state
+        if isinstance(getattr(s0, "position", None), np.ndarray) and isinstance(getattr(s0, "orientation", None),
+                                                                                (int, float)):
+            from vf.oracle import placement
+            try:
+                oc = o.occupancy_at_time(s0.time_step)
+                val = (geom.describe(oc.shape), placement.expected_occupancy_desc(o.obstacle_shape, s0))
+                out.append((path + ".initial_state~occupancy", "derived", val))
+            except Exception:  # noqa  (totality of occupancy queries is C04's business)
+                pass
         if n == "DynamicObstacle":
             extract(o.prediction, path + ".prediction", out)
     elif n == "PhantomObstacle":
